@@ -67,3 +67,116 @@ package responder
 //@   loop 2 invariant forall k key :: in(headers, k) == old(in(headers, k)) && len(headers[k]) == old(len(headers[k])) && (forall i int :: 0 <= i && i < len(headers[k]) ==> sid(headers[k][i]) == old(sid(headers[k][i])))
 //@   loop 2 invariant forall k key :: k != keyid(key) && visited[k] && in(headers, k) ==> len(rwheader(c.writer)[k]) == len(headers[k])
 //@   loop 2 invariant forall k key, i int :: k != keyid(key) && visited[k] && in(headers, k) && 0 <= i && i < len(headers[k]) ==> sid(rwheader(c.writer)[k][i]) == sid(headers[k][i])
+
+// ---------------------------------------------------------------- what reaches the client
+//
+// The proxy talks to the Responder interface, which the generator models on ghost
+// state (status written, body handed over).  The clauses below check both
+// implementations against that model at the level of the writer they wrap:
+// httpstatus(w) / httpwrites(w) are the status line and the number of writes seen
+// by w, wbody(w) the reader whose bytes went out as the body, wlen(w) the length
+// framing used by http.Response.Write (-1: chunked).
+//@ spec func specEffStatus(w any) int = httpwrites(w) == 0 ? 200 : httpstatus(w)
+
+//@ props C08 C10 C16
+//@ func HTTPResponder.SetHeader
+//@   nopanic
+//@   requires c.writer != nil
+//@   ensures [C08] len(rwheader(c.writer)[canonkeyof(name)]) == 1 && sid(rwheader(c.writer)[canonkeyof(name)][0]) == sid(value)
+//@   ensures [C08] forall k key :: k != canonkeyof(name) ==> in(rwheader(c.writer), k) == old(in(rwheader(c.writer), k))
+
+//@ props C08 C16
+//@ func HTTPResponder.GetHeaders
+//@   nopanic
+//@   requires c.writer != nil
+//@   ensures result == rwheader(c.writer)
+
+//@ props C08 C16
+//@ func RawHTTPResponder.GetHeaders
+//@   nopanic
+//@   requires c.response != nil
+//@   ensures result == c.response.Header
+
+// The status the proxy asked for is the status the client sees (200 is implied by the
+// first body write or by the end of the handler), and the body sent is the body given.
+//@ props C08 C01 C16
+//@ func HTTPResponder.Write
+//@   nopanic
+//@   assigns ghost:httpstatus ghost:httpwrites
+//@   requires c.writer != nil && 100 <= status && status <= 999 && httpwrites(c.writer) == 0
+//@   ensures [C08,C16] specEffStatus(c.writer) == status
+//@   ensures [C08,C01] wbody(c.writer) == ident(body)
+
+//@ props C08 C16
+//@ func HTTPResponder.WriteEmpty
+//@   nopanic
+//@   assigns ghost:httpstatus ghost:httpwrites
+//@   requires c.writer != nil && 100 <= status && status <= 999 && httpwrites(c.writer) == 0
+//@   ensures [C08,C16] specEffStatus(c.writer) == status
+
+//@ props C08 C16
+//@ func HTTPResponder.WriteError
+//@   nopanic
+//@   assigns ghost:httpstatus ghost:httpwrites
+//@   requires c.writer != nil && 100 <= errorCode && errorCode <= 999 && httpwrites(c.writer) == 0
+//@   ensures [C08,C16] specEffStatus(c.writer) == errorCode
+
+//@ props C08 C10 C16
+//@ func HTTPResponder.AddHeader
+//@   nopanic
+//@   inline
+//@   requires c.writer != nil && len(rwheader(c.writer)[canonkeyof(name)]) < 1000000
+//@   ensures [C08] len(rwheader(c.writer)[canonkeyof(name)]) == old(len(rwheader(c.writer)[canonkeyof(name)])) + 1
+//@   ensures [C08] sid(rwheader(c.writer)[canonkeyof(name)][old(len(rwheader(c.writer)[canonkeyof(name)]))]) == sid(value)
+
+//@ props C08 C10 C16
+//@ func RawHTTPResponder.AddHeader
+//@   nopanic
+//@   inline
+//@   requires c.response != nil && c.response.Header != nil && len(c.response.Header[canonkeyof(name)]) < 1000000
+//@   ensures [C08] len(c.response.Header[canonkeyof(name)]) == old(len(c.response.Header[canonkeyof(name)])) + 1
+//@   ensures [C08] sid(c.response.Header[canonkeyof(name)][old(len(c.response.Header[canonkeyof(name)]))]) == sid(value)
+
+// On a tunnel the response is written by http.Response.Write: the status line carries the
+// status asked for, the header set is the responder's own, the body is the body given, and
+// the length framing follows the Content-Length the proxy put into the header set
+// (chunked when there is none or it does not parse).
+//@ props C08 C10 C01 C16
+//@ func RawHTTPResponder.Write
+//@   nopanic
+//@   assigns http.Response@c.response ghost:httpstatus ghost:httpwrites
+//@   requires c.response != nil && c.response.Header != nil && c.writer != nil && 100 <= status && status <= 999
+//@   ensures [C08,C16] httpstatus(c.writer) == status && httpwrites(c.writer) == old(httpwrites(c.writer)) + 1
+//@   ensures [C08,C01] readall(wbody(c.writer)) == readall(body) && readlen(wbody(c.writer)) == readlen(body)
+//@   ensures [C08,C10] whdr(c.writer) == ident(c.response.Header) && c.response.Header == old(c.response.Header)
+//@   ensures [C01] in(c.response.Header, canonkeyof("Content-Length")) && len(c.response.Header[canonkeyof("Content-Length")]) > 0 && parseok64(sid(c.response.Header[canonkeyof("Content-Length")][0])) ==> wlen(c.writer) == decval(sid(c.response.Header[canonkeyof("Content-Length")][0]))
+//@   ensures [C01] !in(c.response.Header, canonkeyof("Content-Length")) ==> wlen(c.writer) == -1
+
+//@ props C08 C10 C16
+//@ func RawHTTPResponder.WriteEmpty
+//@   nopanic
+//@   assigns http.Response@c.response map_@c.response.Header ghost:httpstatus ghost:httpwrites
+//@   requires c.response != nil && c.response.Header != nil && c.writer != nil && 100 <= status && status <= 999
+//@   ensures [C08,C16] httpstatus(c.writer) == status && httpwrites(c.writer) == old(httpwrites(c.writer)) + 1
+//@   ensures [C08,C10] whdr(c.writer) == ident(c.response.Header) && wlen(c.writer) == 0
+
+//@ props C08 C10 C16
+//@ func RawHTTPResponder.WriteError
+//@   nopanic
+//@   assigns http.Response@c.response map_@c.response.Header ghost:httpstatus ghost:httpwrites
+//@   requires c.response != nil && c.response.Header != nil && c.writer != nil && 100 <= errorCode && errorCode <= 999
+//@   ensures [C08,C16] httpstatus(c.writer) == errorCode && httpwrites(c.writer) == old(httpwrites(c.writer)) + 1
+//@   ensures [C08,C10] whdr(c.writer) == ident(c.response.Header) && wlen(c.writer) == len(message)
+
+// A successful Hijack hands over a connection (the tunnel code writes to it at once).
+//@ props C10 C16
+//@ func HTTPResponder.Hijack
+//@   nopanic
+//@   requires c.writer != nil
+//@   ensures [C16] result2 == nil ==> result0 != nil
+//@   ensures [C16] result2 != nil ==> result0 == nil
+
+//@ props C10 C16
+//@ func RawHTTPResponder.Hijack
+//@   nopanic
+//@   ensures [C16] result2 != nil && result0 == nil
